@@ -35,7 +35,16 @@ def _judge(self, kwargs, result, what):
         kw = kwargs or {}
         if not kw.get("only_upper", True) or not kw.get("include_opposing_neighbours", True):
             return  # non-default forms are not the property's matrices
-        P = np.asarray(self.my_array, dtype=float)
+        judge_points(np.asarray(self.my_array, dtype=float), result, what, holder=self)
+    except Exception as e:
+        REC.crashed("C04.oracle_error", e)
+
+
+def judge_points(P, result, what, holder=None):
+    """judge one default folded matrix of a rotation grid whose double cover is P (2N,4), whatever class produced it"""
+    mon = f"C04.{what}"
+    self = holder
+    try:
         N = len(P) // 2
         G = P[:N]
         if P.shape != (2 * N, 4) or not np.array_equal(P[N:], -G):
@@ -100,11 +109,12 @@ def _judge(self, kwargs, result, what):
                 if not np.all(D[stored] == 1):
                     problems.append("adjacency entries other than True/1")
             cur = hashlib.md5(np.packbits(stored).tobytes()).hexdigest()
-            pat = getattr(self, "_verif_pattern4", None)
+            pat = getattr(self, "_verif_pattern4", None) if self is not None else None
             if pat is not None and pat != cur:
                 problems.append("pattern differs from another getter of the same object")
             try:
-                self._verif_pattern4 = cur
+                if self is not None:
+                    self._verif_pattern4 = cur
             except Exception:
                 pass
         if what == "adjacency":
